@@ -8,12 +8,19 @@ pub struct CountingAlloc;
 static LIVE: AtomicUsize = AtomicUsize::new(0);
 static PEAK: AtomicUsize = AtomicUsize::new(0);
 static MAXREQ: AtomicUsize = AtomicUsize::new(0);
+/// diagnostic aid (VH_BIGALLOC=1): print where a request above 1 MiB comes from
+pub static DEBUG_BIG: std::sync::atomic::AtomicBool = std::sync::atomic::AtomicBool::new(false);
+static IN_DEBUG: std::sync::atomic::AtomicBool = std::sync::atomic::AtomicBool::new(false);
 /// requests above this size are refused (the process then aborts; the orchestrator attributes the
 /// abort to the plan in flight)
 pub const ALLOC_LIMIT: usize = 1 << 30;
 
 unsafe impl GlobalAlloc for CountingAlloc {
     unsafe fn alloc(&self, l: Layout) -> *mut u8 {
+        if l.size() > (1 << 20) && DEBUG_BIG.load(Ordering::Relaxed) && !IN_DEBUG.swap(true, Ordering::SeqCst) {
+            eprintln!("BIGALLOC {} bytes\n{}", l.size(), std::backtrace::Backtrace::force_capture());
+            IN_DEBUG.store(false, Ordering::SeqCst);
+        }
         let n = l.size();
         MAXREQ.fetch_max(n, Ordering::Relaxed);
         if n > ALLOC_LIMIT {
